@@ -808,13 +808,36 @@ def driver_obligations(P):
         towers = cfg.attrs["towers"].items
         log = []
         pool_calls = []
+        chunk_checks = []
 
         def executor(I, args, kwargs, node):
             return Opaque("pool", {"max_workers": kwargs.get("max_workers", args[0] if args else None)})
 
+        def at_least_one(I, c):
+            """c >= 1 on this path?  -> True | False (a value below one is possible) | None"""
+            if not isinstance(c, Expr):
+                return None
+            e = (c - ONE).expand()
+            if I.facts.possible(e) <= {"0", "+"}:
+                return True
+            for a in e.top_atoms():
+                if a.kind == "fn" and a.name == "max" and e.coeff_of(a, 1).eq(ONE):
+                    rest = e - alg.atom_expr(a)
+                    if any(isinstance(x, Expr) and I.facts.possible((rest + x).expand()) <= {"0", "+"} for x in a.args):
+                        return True  # max(..., x, ...) >= x
+            ce = c.expand()
+            tops = list(ce.top_atoms())
+            if len(tops) == 1 and tops[0].kind == "fn" and tops[0].name == "floordiv" and ce.eq(alg.atom_expr(tops[0])):
+                num, den = tops[0].args
+                if I.facts.possible((den - num).expand()) >= {"+"}:
+                    return False  # a quotient rounded down is zero as soon as the divisor exceeds the dividend, which nothing excludes
+            return None
+
         def pool_map(I, args, kwargs, node):
             f, tasks = args[0], args[1]
             pool_calls.append(("map", f))
+            if kwargs.get("chunksize") is not None:
+                chunk_checks.append((at_least_one(I, kwargs["chunksize"]), repr(kwargs["chunksize"])[:80], node.lineno))
             if not isinstance(tasks, Tup):
                 return Unknown("map over %r" % (tasks,))
             out = []
@@ -877,6 +900,9 @@ def driver_obligations(P):
         okp = bool(rets) and len(res) == len(rets) and all(isinstance(r.value, Tup) and r.value.kind == "dict" for r in rets)
         obs.extend(step_state_obligations(res, site_p, "parallel over %s" % strategy))
         obs.append(req_ob("R-ORDERED", site_p, "strategy %r returns a mapping on every path (one per schedule followed)" % strategy, okp, detail=str([(r.kind, r.raise_desc) for r in res])[:200]))
+        for okc, what, line in chunk_checks:
+            obs.append(req_ob("R-ORDERED", site_p, "strategy %r: the chunk size handed to Executor.map is at least one for every worker count and task count (a smaller one makes map raise)" % strategy, okc,
+                              detail=None if okc else "line %s: chunksize = %s can be below one (more workers than tasks)" % (line, what)))
         used_pool = any(k in ("map", "submit") for k, _ in pool_calls)
         obs.append(req_ob("R-ORDERED", site_p, "strategy %r distributes work through the executor (Executor.map keeps task order, a Future carries its own task's result; completion order is an unknown sequence)" % strategy, used_pool, detail=str(sorted({k for k, _ in pool_calls}))))
         for ret in (rets if okp else []):
